@@ -81,6 +81,9 @@ def run_property(pid, tier="quick", seed=0):
         if a["aborted"]:
             status["inconclusive"].append("%s: %d aborted paths (%s)" % (
                 hn, a["aborted"], "; ".join(a["aborted_msgs"][:2])))
+        if a.get("hung"):
+            status["inconclusive"].append("%s: %d work items lost to a hanging solver call / dead "
+                                          "worker (%s)" % (hn, a["hung"], "; ".join(a["aborted_msgs"][:2])))
         if a["incomplete"]:
             status["inconclusive"].append("%s: time budget exhausted, %d subtrees unexplored"
                                           % (hn, a["incomplete"]))
